@@ -167,6 +167,7 @@ func (f *File) ReadAt(p []byte, off int64) (int, error) {
 		return n, &fs.PathError{Op: "read", Path: f.path, Err: syscall.EIO}
 	}
 	n, err := f.f.ReadAt(p, off)
+	y("file.readat.done") // descheduled between the kernel's copy and the return
 	if err == nil && n == len(p) && fault.Fire("disk-eof-variant") {
 		if st, e := f.f.Stat(); e == nil && off+int64(n) == st.Size() {
 			return n, io.EOF // legal: "may return either err == EOF or err == nil"
